@@ -244,9 +244,11 @@ private:
       if (k == 1) {
         decrement();
         --n;
-      } else if (k < n) {
-        seek_backward();
-        n -= k;
+      } else if (k <= n) {
+        // go to the beginning of this inner range; the next round steps into
+        // the previous non-empty one
+        std::advance(this->base_reference(), -(k - 1));
+        n -= k - 1;
       } else {
         std::advance(this->base_reference(), -n);
         n = 0;
